@@ -1,4 +1,4 @@
-import TxdbusModel.Proofs.Wire.Cost
+import TxdbusModel.Proofs.Wire.CostWork
 /-!
 Property C05 - malformed or hostile message bytes are rejected in bounded time.
 
@@ -23,55 +23,105 @@ namespace Txdbus.C05
 theorem tables_good : genTables.Good := genTables_good
 
 /-- Termination, with an explicit bound: `2*|sig| + 2*|data| + 2` units of fuel (or more) are always enough. -/
-theorem unmarshal_fuel_adequate (sig : List Char) (data : List UInt8) (off : Nat) (le : Bool) (fuel : Nat)
+theorem unmarshal_fuel_adequate (fds : Option (List Nat)) (sig : List Char) (data : List UInt8) (off : Nat) (le : Bool) (fuel : Nat)
     (hf : fuelFor sig data ≤ fuel) :
-    (unmarshal genTables true fuel sig data off le).st ≠ .outOfFuel :=
-  fuel_adequate_gen genTables genTables_good sig data off le fuel hf
+    (unmarshal genTables true fds fuel sig data off le).st ≠ .outOfFuel :=
+  fuel_adequate_gen genTables genTables_good fds sig data off le fuel hf
 
 /-- Work is linear in the data length: whatever the outcome (value or exception), the number of unmarshaller
 invocations is at most `|sig| + (max |sig| 255 + 2) * (|data| - off) + 1`. -/
-theorem unmarshal_steps_linear (sig : List Char) (data : List UInt8) (off : Nat) (le : Bool) (fuel : Nat)
-    (hne : (unmarshal genTables true fuel sig data off le).st ≠ .outOfFuel) :
-    (unmarshal genTables true fuel sig data off le).steps ≤
+theorem unmarshal_steps_linear (fds : Option (List Nat)) (sig : List Char) (data : List UInt8) (off : Nat) (le : Bool) (fuel : Nat)
+    (hne : (unmarshal genTables true fds fuel sig data off le).st ≠ .outOfFuel) :
+    (unmarshal genTables true fds fuel sig data off le).steps ≤
       sig.length + (max sig.length 255 + 2) * (data.length - off) + 1 :=
-  steps_linear_gen genTables genTables_good sig data off le fuel hne
+  steps_linear_gen genTables genTables_good fds sig data off le fuel hne
 
 /-- `parseMessage` of the repaired code (signature header field: a `str` of at most 255 characters) terminates
 with `2*255 + 2*|data| + 2` units of fuel and performs at most `266 + 257 * |data| + 2` invocations
 (header signature `yyyyuua(yv)`: 11 characters). -/
-theorem parseMessage_total (data : List UInt8) (fuel : Nat)
+theorem parseMessage_total (fds : Option (List Nat)) (data : List UInt8) (fuel : Nat)
     (hf : parseFuel Gen.C05Wire.headerFormat data ≤ fuel) :
-    (parseMessage genTables Gen.C05Wire.headerFormat Gen.C05Wire.mtypeKeys Gen.C05Wire.signatureCode true fuel data).st
+    (parseMessage genTables Gen.C05Wire.headerFormat Gen.C05Wire.mtypeKeys Gen.C05Wire.signatureCode true fds fuel data).st
         ≠ .outOfFuel ∧
-    (parseMessage genTables Gen.C05Wire.headerFormat Gen.C05Wire.mtypeKeys Gen.C05Wire.signatureCode true fuel data).steps
+    (parseMessage genTables Gen.C05Wire.headerFormat Gen.C05Wire.mtypeKeys Gen.C05Wire.signatureCode true fds fuel data).steps
         ≤ Gen.C05Wire.headerFormat.length + 255 + (max Gen.C05Wire.headerFormat.length 255 + 2) * data.length + 2 :=
-  parseMessage_gen genTables genTables_good _ _ _ data fuel hf
+  parseMessage_gen genTables genTables_good _ _ _ fds data fuel hf
 
 /-- The decoded value never has more nodes than invocations were made. -/
-theorem result_size_bounded (sig : List Char) (data : List UInt8) (off : Nat) (le : Bool) (fuel : Nat) :
-    (unmarshal genTables true fuel sig data off le).size ≤ (unmarshal genTables true fuel sig data off le).steps :=
-  size_le_steps_gen genTables genTables_good sig data off le fuel
+theorem result_size_bounded (fds : Option (List Nat)) (sig : List Char) (data : List UInt8) (off : Nat) (le : Bool) (fuel : Nat) :
+    (unmarshal genTables true fds fuel sig data off le).size ≤ (unmarshal genTables true fds fuel sig data off le).steps :=
+  size_le_steps_gen genTables genTables_good fds sig data off le fuel
+
+/-- Work INCLUDING what one invocation costs - the characters of `ct` it slices, the data bytes a string / signature
+read slices, and the characters `genCompleteTypes` scans / slices / concatenates to produce each piece (quadratic in a
+run of `a`): at most `workUnit L * stepBound + (|data| - off) + (L+1)^2` with `L = max |sig| 255`,
+`workUnit L = (L+1)^2 + L + 1`.  Linear in the data length for a bounded signature length (cubic in that bound). -/
+theorem unmarshal_work_linear (fds : Option (List Nat)) (sig : List Char) (data : List UInt8) (off : Nat) (le : Bool) (fuel : Nat)
+    (hne : (unmarshal genTables true fds fuel sig data off le).st ≠ .outOfFuel) :
+    (unmarshal genTables true fds fuel sig data off le).work ≤
+      ((max sig.length 255 + 1) * (max sig.length 255 + 1) + max sig.length 255 + 1)
+          * (sig.length + (max sig.length 255 + 2) * (data.length - off) + 1)
+        + (data.length - off) + (max sig.length 255 + 1) * (max sig.length 255 + 1) :=
+  work_linear_gen genTables genTables_good fds sig data off le fuel hne
+
+/-- Recursion is bounded by the input: every nesting level of unmarshaller invocations costs a signature character
+or a data byte (a variant pays its signature with the bytes that carry it).  For a signature without `v` the data
+term is not needed by the argument, but through variants the depth does grow with the data (one level per 3 bytes);
+on CPython that ends in `RecursionError`, an ordinary exception (see ASSUMPTIONS of the harness). -/
+theorem unmarshal_depth_bounded (fds : Option (List Nat)) (sig : List Char) (data : List UInt8) (off : Nat) (le : Bool) (fuel : Nat)
+    (hne : (unmarshal genTables true fds fuel sig data off le).st ≠ .outOfFuel) :
+    (unmarshal genTables true fds fuel sig data off le).depth ≤ sig.length + (data.length - off) :=
+  depth_bounded_gen genTables fds sig data off le fuel hne
+
+/-- The decoded strings together are no longer than the data they were cut from. -/
+theorem result_chars_bounded (fds : Option (List Nat)) (sig : List Char) (data : List UInt8) (off : Nat) (le : Bool) (fuel : Nat)
+    (hok : (unmarshal genTables true fds fuel sig data off le).st = .ok) :
+    (unmarshal genTables true fds fuel sig data off le).chars ≤ data.length - off :=
+  chars_bounded_gen genTables fds sig data off le fuel hok
+
+/-- The property in one statement, at the fuel the driver runs the model with: the decode ends (value or exception),
+within `stepBound` invocations and `workBound` units of work, nesting at most `|sig| + bytes`, having built at most
+`steps` nodes (and, when it returns, at most `bytes` characters of strings). -/
+theorem unmarshal_bounded (fds : Option (List Nat)) (sig : List Char) (data : List UInt8) (off : Nat) (le : Bool) :
+    let r := unmarshal genTables true fds (fuelFor sig data) sig data off le
+    r.st ≠ .outOfFuel ∧ r.steps ≤ stepBound sig data off ∧ r.work ≤ workBound sig data off ∧
+      r.depth ≤ sig.length + (data.length - off) ∧ r.size ≤ r.steps ∧ (r.st = .ok → r.chars ≤ data.length - off) := by
+  have hne := fuel_adequate_gen genTables genTables_good fds sig data off le (fuelFor sig data) (Nat.le_refl _)
+  exact ⟨hne, steps_linear_gen genTables genTables_good fds sig data off le _ hne,
+    work_linear_gen genTables genTables_good fds sig data off le _ hne,
+    depth_bounded_gen genTables fds sig data off le _ hne,
+    size_le_steps_gen genTables genTables_good fds sig data off le _,
+    chars_bounded_gen genTables fds sig data off le _⟩
+
+/-- `parseMessage` (repaired code): work incl. the three slices of the message, nesting, characters of strings. -/
+theorem parseMessage_work_linear (fds : Option (List Nat)) (data : List UInt8) (fuel : Nat)
+    (hf : parseFuel Gen.C05Wire.headerFormat data ≤ fuel) :
+    let r := parseMessage genTables Gen.C05Wire.headerFormat Gen.C05Wire.mtypeKeys Gen.C05Wire.signatureCode true fds fuel data
+    r.work ≤ parseWorkBound Gen.C05Wire.headerFormat data ∧
+    r.depth ≤ max Gen.C05Wire.headerFormat.length 255 + data.length ∧
+    (r.st = .ok → r.chars ≤ data.length) :=
+  parseMessage_work_gen genTables genTables_good _ _ _ fds data fuel hf
 
 /-- Witness (F1, repaired by commit 635620f): with the array loop as it was - no zero-length-element check -
 `unmarshal('a()', data)` runs out of EVERY fuel as soon as the array length word is not zero. -/
-theorem prefix_array_loop_never_terminates (data : List UInt8) (le : Bool) (h4 : 4 ≤ data.length)
+theorem prefix_array_loop_never_terminates (fds : Option (List Nat)) (data : List UInt8) (le : Bool) (h4 : 4 ≤ data.length)
     (hw : uval le (slice data 0 4) ≠ 0) (n : Nat) :
-    (unmarshal genTables false n ['a', '(', ')'] data 0 le).st = .outOfFuel :=
-  prefix_array_unit data le h4 hw n
+    (unmarshal genTables false fds n ['a', '(', ')'] data 0 le).st = .outOfFuel :=
+  prefix_array_unit fds data le h4 hw n
 
 /-! The hypotheses are satisfiable and the statements are about non-trivial runs. -/
 
 /-- `fuelFor` itself is an admissible fuel; the F1 exemplar is now rejected with an exception after 2 invocations. -/
-example : (unmarshal genTables true (fuelFor ['a', '(', ')'] [8, 0, 0, 0, 0, 0, 0, 0, 0, 0, 0, 0])
+example : (unmarshal genTables true (some []) (fuelFor ['a', '(', ')'] [8, 0, 0, 0, 0, 0, 0, 0, 0, 0, 0, 0])
     ['a', '(', ')'] [8, 0, 0, 0, 0, 0, 0, 0, 0, 0, 0, 0] 0 true).st = .err .marshalling := by decide +kernel
 
 /-- ... while the loop before the repair, on the same input, runs out of fuel (instance of the witness). -/
-example : (unmarshal genTables false 1000 ['a', '(', ')'] [8, 0, 0, 0, 0, 0, 0, 0, 0, 0, 0, 0] 0 true).st = .outOfFuel :=
-  prefix_array_loop_never_terminates _ _ (by decide) (by decide) 1000
+example : (unmarshal genTables false (some []) 1000 ['a', '(', ')'] [8, 0, 0, 0, 0, 0, 0, 0, 0, 0, 0, 0] 0 true).st = .outOfFuel :=
+  prefix_array_loop_never_terminates _ _ _ (by decide) (by decide) 1000
 
 /-- a valid array of two bytes inside a struct: value, 4 invocations, 6 bytes consumed. -/
-example : let r := unmarshal genTables true 100 ['(', 'a', 'y', ')'] [2, 0, 0, 0, 7, 9] 0 true
-    r.st = .ok ∧ r.steps = 4 ∧ r.off = 6 ∧ r.size = 4 := by decide +kernel
+example : let r := unmarshal genTables true (some []) 100 ['(', 'a', 'y', ')'] [2, 0, 0, 0, 7, 9] 0 true
+    r.st = .ok ∧ r.steps = 4 ∧ r.off = 6 ∧ r.size = 4 ∧ r.depth = 3 ∧ r.work = 24 := by decide +kernel
 
 end Txdbus.C05
 
@@ -80,4 +130,9 @@ end Txdbus.C05
 #print axioms Txdbus.C05.unmarshal_steps_linear
 #print axioms Txdbus.C05.parseMessage_total
 #print axioms Txdbus.C05.result_size_bounded
+#print axioms Txdbus.C05.unmarshal_work_linear
+#print axioms Txdbus.C05.unmarshal_depth_bounded
+#print axioms Txdbus.C05.result_chars_bounded
+#print axioms Txdbus.C05.unmarshal_bounded
+#print axioms Txdbus.C05.parseMessage_work_linear
 #print axioms Txdbus.C05.prefix_array_loop_never_terminates
